@@ -135,8 +135,29 @@ class DictIter(IterVal):
 
     def __init__(self, ref, mode):
         self.ref, self.mode = ref, mode
+        self.axiom_done = False
+
+    def axiom(self, run):
+        """The ghost key vector enumerates exactly the present keys (definition of the abstract iteration order)."""
+        if self.axiom_done:
+            return
+        self.axiom_done = True
+        a = Value.a(self.ref)
+        keys = z3.Select(run.field('dict.keys'), a)
+        has = z3.Select(run.field('dict.has'), a)
+        n = z3.Select(run.field('dict.n'), a)
+        k = z3.Const('k!enum', Value)
+        j = z3.Int('j!enum')
+        pos = z3.Function('dict_pos', I, Value, I)      # witness: position of a present key
+        run.assume(z3.ForAll([k], z3.Implies(z3.Select(has, k),
+                                             z3.And(pos(a, k) >= 0, pos(a, k) < n, z3.Select(keys, pos(a, k)) == k)),
+                             patterns=[z3.Select(has, k)]))
+        run.assume(z3.ForAll([j], z3.Implies(z3.And(j >= 0, j < n), z3.Select(has, z3.Select(keys, j))),
+                             patterns=[z3.Select(keys, j)]))
+        run.assume(n >= 0)
 
     def has_next(self, run, k):
+        self.axiom(run)
         return (z3.IntVal(k) if isinstance(k, int) else k) < z3.Select(run.field('dict.n'), Value.a(self.ref))
 
     def item(self, run, k):
@@ -287,7 +308,10 @@ class CallsMixin:
         raise PyExc('TypeError', 'subscript of object ' + self.snippet(node), implicit='type')
 
     def assume_elem_type(self, obj, v):
-        pass
+        """Heap typing assumption for list elements (declared in FIELD_TYPES as list[T]); checked at writes."""
+        ty = self.list_elem_type.get(z3.simplify(Value.a(obj)).sexpr())
+        if ty and static_tag(v) is None and not self.spec_mode:
+            self.assume_type(v, ty)
 
     def set_item(self, obj, idx, v, node):
         obj = self.val(obj)
@@ -450,11 +474,18 @@ class CallsMixin:
                 return self.call_func(fv, [], {}, node)
             return fv
         if name in LIST_METHODS | DICT_METHODS | SET_METHODS:
-            return Builtin('m.' + name, obj)
+            if ('attr:' + name) not in self.heap and name not in self.eng.field_types:
+                return Builtin('m.' + name, obj)
+            # the name is also an attribute of library classes (e.g. Atom.index): decide by the object's class
+            if not self.spec_mode and self.ref_kind(obj, ['list', 'deque', 'dict', 'set']) is not None:
+                return Builtin('m.' + name, obj)
         v = z3.simplify(z3.Select(self.field('attr:' + name), Value.a(obj)))
         ty = self.eng.field_types.get(name)
         if ty and static_tag(v) is None:
-            self.assume(self.type_constraint(v, ty))
+            if ty.startswith('list[') and ty.endswith(']'):
+                self.list_elem_type[z3.simplify(Value.a(v)).sexpr()] = ty[5:-1]
+                ty = 'list'
+            self.assume_type(v, ty)
         return v
 
     def set_attr(self, obj, name, v, node):
@@ -957,8 +988,11 @@ class CallsMixin:
         if len(node.args) != 1 or not isinstance(node.args[0], (ast.GeneratorExp, ast.ListComp)):
             return NotImplemented
         ge = node.args[0]
-        if len(ge.generators) != 1:
-            raise OutOfSubset('nested quantifier generator')
+        if len(ge.generators) > 1:
+            inner = ast.GeneratorExp(elt=ge.elt, generators=ge.generators[1:])
+            call = ast.Call(func=ast.Name(id='all' if is_all else 'any', ctx=ast.Load()), args=[inner], keywords=[])
+            ge = ast.GeneratorExp(elt=call, generators=ge.generators[:1])
+            ast.fix_missing_locations(ge)
         g = ge.generators[0]
         if not self.spec_mode:
             # code mode: only over static sequences
@@ -975,6 +1009,16 @@ class CallsMixin:
             if not res:
                 r = z3.BoolVal(is_all)
             return VBool(z3.simplify(r))
+        if isinstance(g.iter, ast.Call) and isinstance(g.iter.func, ast.Name) and g.iter.func.id == 'anyvalue':
+            v = z3.Const('v!q%d' % self._qcount(), Value)
+            saved = dict(self.bound)
+            self._bind_target(g.target, v)
+            conds = [self.truth(self.ev(c)) for c in g.ifs]
+            body = self.truth(self.ev(ge.elt))
+            self.bound = saved
+            if is_all:
+                return z3.ForAll([v], z3.Implies(z3.And(conds), body) if conds else body)
+            return z3.Exists([v], z3.And(conds + [body]))
         it = self.make_iter(g.iter)
         if isinstance(it, StaticIter) and len(it.items) <= 16:
             res = []
@@ -1053,6 +1097,12 @@ class CallsMixin:
     def sp_mod(self, node):
         return VInt(self.as_int(self.ev(node.args[0])) % self.as_int(self.ev(node.args[1])))
 
+    def sp_dict_key_at(self, node):
+        """dict_key_at(d, j): the j-th key in the (abstract) iteration order of d."""
+        d = self.val(self.ev(node.args[0]))
+        j = self.as_int(self.ev(node.args[1]))
+        return z3.Select(z3.Select(self.field('dict.keys'), Value.a(d)), j)
+
     def sp_memo_clean(self, node):
         """memo_clean("relpath::func"): the lru_cache table of func holds no entry computed under another table."""
         key = ast.literal_eval(node.args[0])
@@ -1114,7 +1164,17 @@ class CallsMixin:
         if isinstance(x, IterVal):
             raise PyExc('TypeError', 'len of iterator', implicit='type')
         x = self.val(x)
-        t = static_tag(x) or ('VRef' if self.spec_mode and False else self.tag(x))
+        t = static_tag(x) or self.tagcache.get(x.sexpr())
+        if t is None and self.spec_mode:
+            t = 'VRef'
+        if t is None:
+            t = self.tag(x)
+        if t == 'VRef' and self.spec_mode:
+            a = Value.a(x)
+            c = self.cls_of(x)
+            if not z3.is_int_value(c) or c.as_long() < 10:
+                return VInt(z3.If(z3.Or(c == 2, c == 3), z3.Select(self.field('dict.n'), a),
+                                  z3.Select(self.field('list.len'), a)))
         if t == 'VStr':
             return VInt(z3.Length(Value.s(x)))
         if t == 'VTup':
@@ -1343,6 +1403,39 @@ class CallsMixin:
         r = self.list_concat(b.self_val, self.val(args[0]) if not isinstance(args[0], Const) else args[0], node,
                              inplace=True)
         return VNone
+
+    def bi_m_insert(self, b, args, kwargs, node):
+        ref = b.self_val
+        a = Value.a(ref)
+        self.check_write(a, node)
+        n = self.list_len(ref)
+        arr = self.list_arr(ref)
+        pos = self.as_int(args[0])
+        # list.insert clamps the position into [0, n] (negative positions count from the end)
+        p = z3.If(pos < 0, z3.If(pos + n < 0, z3.IntVal(0), pos + n), z3.If(pos > n, n, pos))
+        v = self.val(args[1])
+        i = z3.Int('i!ins')
+        new = self.fresh('ins', ArrIV)
+        # defining axiom of the new item vector (kept out of the feasibility solver, present in every obligation)
+        self.assume(z3.ForAll([i], z3.Select(new, i) == z3.If(i < p, z3.Select(arr, i),
+                                                              z3.If(i == p, v, z3.Select(arr, i - 1))),
+                              patterns=[z3.Select(new, i)]))
+        self.assume(z3.Select(new, p) == v)
+        self.heap['list.items'] = z3.Store(self.field('list.items'), a, new)
+        self.heap['list.len'] = z3.Store(self.field('list.len'), a, n + 1)
+        return VNone
+
+    def bi_m_setdefault(self, b, args, kwargs, node):
+        d = b.self_val
+        a = Value.a(d)
+        k = self.val(args[0])
+        has = z3.Select(z3.Select(self.field('dict.has'), a), k)
+        if self.branch(has):
+            return z3.simplify(z3.Select(z3.Select(self.field('dict.val'), a), k))
+        v = self.val(args[1]) if len(args) > 1 else VNone
+        self.check_write(a, node)
+        self.dict_set(d, k, v, node)
+        return v
 
     def bi_m_get(self, b, args, kwargs, node):
         d = b.self_val
